@@ -53,34 +53,34 @@ Print Assumptions C10_example.
    of them re-opens this property even if no sampled case shows a difference.  Rewritten by tools/pin_shapes.py on a tree on which every check passes. *)
 From Connectome Require CtxGen GlueChainGen GlueFactoryGen.
 Theorem C10_mirrored_functions_are_the_pinned_ones :
-  CtxGen.shape_BagContext_reverse = "d6af94e996b28a3b" /\
-  CtxGen.shape_ChainContext_reverse = "caed8193735534fa" /\
-  CtxGen.shape_IdentityContext_reverse = "b8adcce862536491" /\
-  CtxGen.shape_EdgesBag_loopback = "c1346cadc81cbd04" /\
-  CtxGen.shape_function_to_bag = "6497a5d8344921da" /\
-  GlueChainGen.shape_class_CallableLayer = "c80fc9ed956106f0" /\
-  GlueChainGen.shape_class_Instance = "e7a645f498b26984" /\
-  GlueChainGen.shape_class_Chain = "9d9b18d30947136d" /\
-  GlueChainGen.shape_class_LazyChain = "a1c1f777b7f04bfb" /\
-  GlueChainGen.shape_connect = "32cfcae91c959073" /\
-  GlueFactoryGen.shape_class_GraphFactory = "81497759c0671ad7" /\
-  GlueFactoryGen.shape_class_SourceFactory = "1808b21b3bce3951" /\
-  GlueFactoryGen.shape_class_TransformFactory = "c44de91624ae4321" /\
-  GlueFactoryGen.shape_add_from_mixins = "75970a13392501ac" /\
-  GlueFactoryGen.shape_is_detectable = "01389bb1efb83cb2" /\
-  GlueFactoryGen.shape_items_to_container = "f7b238bfe3e856c6" /\
-  GlueFactoryGen.shape_class_FunctionBase = "2a1e9fd23a29f19d" /\
-  GlueFactoryGen.shape_class_Function = "727356a49c35f2ce" /\
-  GlueFactoryGen.shape_class_FunctionWrapper = "20f303f31715c14d" /\
-  GlueFactoryGen.shape_class_Inverse = "d803d7d513cd3b06" /\
-  GlueFactoryGen.shape_class_Positional = "ff7f4bccfea673aa" /\
-  GlueFactoryGen.shape_class_Impure = "f33a1c51c28660a4" /\
-  GlueFactoryGen.shape_class_APIMeta = "d04e35766e894328" /\
-  GlueFactoryGen.shape_class_HashByValue = "16222fab9891d910" /\
-  GlueFactoryGen.shape_class_CombinedHashByValue = "a5203dcb1319f438" /\
-  GlueFactoryGen.shape_hash_by_value = "8a4ba5e0fdeb3b7c" /\
-  GlueFactoryGen.shape_class_NodeStorage = "6d3e8d03e5bc0ef6" /\
-  GlueFactoryGen.shape_replace_annotation = "1793c6c05b9f2740".
+  CtxGen.shape_BagContext_reverse = "d6af94e996b28a3b"%string /\
+  CtxGen.shape_ChainContext_reverse = "caed8193735534fa"%string /\
+  CtxGen.shape_IdentityContext_reverse = "b8adcce862536491"%string /\
+  CtxGen.shape_EdgesBag_loopback = "c1346cadc81cbd04"%string /\
+  CtxGen.shape_function_to_bag = "6497a5d8344921da"%string /\
+  GlueChainGen.shape_class_CallableLayer = "c80fc9ed956106f0"%string /\
+  GlueChainGen.shape_class_Instance = "e7a645f498b26984"%string /\
+  GlueChainGen.shape_class_Chain = "9d9b18d30947136d"%string /\
+  GlueChainGen.shape_class_LazyChain = "a1c1f777b7f04bfb"%string /\
+  GlueChainGen.shape_connect = "32cfcae91c959073"%string /\
+  GlueFactoryGen.shape_class_GraphFactory = "81497759c0671ad7"%string /\
+  GlueFactoryGen.shape_class_SourceFactory = "1808b21b3bce3951"%string /\
+  GlueFactoryGen.shape_class_TransformFactory = "c44de91624ae4321"%string /\
+  GlueFactoryGen.shape_add_from_mixins = "75970a13392501ac"%string /\
+  GlueFactoryGen.shape_is_detectable = "01389bb1efb83cb2"%string /\
+  GlueFactoryGen.shape_items_to_container = "f7b238bfe3e856c6"%string /\
+  GlueFactoryGen.shape_class_FunctionBase = "2a1e9fd23a29f19d"%string /\
+  GlueFactoryGen.shape_class_Function = "727356a49c35f2ce"%string /\
+  GlueFactoryGen.shape_class_FunctionWrapper = "20f303f31715c14d"%string /\
+  GlueFactoryGen.shape_class_Inverse = "d803d7d513cd3b06"%string /\
+  GlueFactoryGen.shape_class_Positional = "ff7f4bccfea673aa"%string /\
+  GlueFactoryGen.shape_class_Impure = "f33a1c51c28660a4"%string /\
+  GlueFactoryGen.shape_class_APIMeta = "d04e35766e894328"%string /\
+  GlueFactoryGen.shape_class_HashByValue = "16222fab9891d910"%string /\
+  GlueFactoryGen.shape_class_CombinedHashByValue = "a5203dcb1319f438"%string /\
+  GlueFactoryGen.shape_hash_by_value = "8a4ba5e0fdeb3b7c"%string /\
+  GlueFactoryGen.shape_class_NodeStorage = "6d3e8d03e5bc0ef6"%string /\
+  GlueFactoryGen.shape_replace_annotation = "1793c6c05b9f2740"%string.
 Proof. repeat split; reflexivity. Qed.
 Print Assumptions C10_mirrored_functions_are_the_pinned_ones.
 (* END PINNED FINGERPRINTS *)
